@@ -48,6 +48,10 @@ impl Scheduler {
                     let ctx = &task.create_context();
                     task.exec(ctx).unwrap_or_else(|err| {
                         eprintln!("error: {err}");
+                        // a task closed while it was waiting in the queue keeps its terminal state
+                        if task.state().is_completed() {
+                            return;
+                        }
                         task.set_err(&err.into());
                         let _ = ctx.emit_error();
                     });
